@@ -84,15 +84,25 @@ var c19Subjects = []c19Subj{
 }
 
 type c19Spec struct {
-	Subj  int     `json:"subj"`
+	Subj  int     `json:"subj"` // -1: the match is ONE site evaluated over the sequence of all subjects (elements of the input)
+	Rev   bool    `json:"rev,omitempty"`
 	Cases [][]int `json:"cases"` // pattern indices per case
 	Body  int     `json:"body"`  // 0 expression, 1 block, 2 tracing call
 }
 
 var c19T = &Func{Name: "t", Params: []string{"i", "a", "b"}, Body: Blk(Pr(S("t"), V("i"), V("a"), V("b")), &Return{Bin("+", V("i"), N("100"))})}
 
+const c19StreamDoc = `[1,2,"a",null,true,[],[1],[2,5],[1,[2,3]],{"a":1},[[1],7],"2",false,0]`
+const c19StreamDocRev = `[0,false,"2",[[1],7],{"a":1},[1,[2,3]],[2,5],[1],[],true,null,"a",2,1]`
+
 func c19Build(s c19Spec, pats []c19Pat) *progCase {
-	m := &MatchExpr{Subj: c19Subjects[s.Subj].mk()}
+	var subj Expr
+	if s.Subj < 0 {
+		subj = V("$")
+	} else {
+		subj = c19Subjects[s.Subj].mk()
+	}
+	m := &MatchExpr{Subj: subj}
 	for i, cs := range s.Cases {
 		mc := MatchCase{}
 		for _, p := range cs {
@@ -115,6 +125,13 @@ func c19Build(s c19Spec, pats []c19Pat) *progCase {
 		Pr(S("r"), V("r"), &IsExpr{V("r"), "null"}),
 		Pr(S("after"), V("x"), V("y")),
 	)
+	if s.Subj < 0 {
+		doc := c19StreamDoc
+		if s.Rev {
+			doc = c19StreamDocRev
+		}
+		return &progCase{P: &Program{Funcs: []*Func{c19T}, Rules: []*Rule{{Body: body}}}, Files: []inFile{{"in.json", doc}}}
+	}
 	return &progCase{P: &Program{Funcs: []*Func{c19T}, Rules: []*Rule{{Kind: "BEGIN", Body: body}}}}
 }
 
@@ -131,7 +148,7 @@ func init() {
 	fw.Register(&fw.Prop{
 		ID: "C19",
 		Rule: "12 subjects (scalars of every kind, unset, arrays of several lengths and nestings, an object) x all case lists of <= 2 cases with <= 2 alternatives each and all lists of 3 single-alternative cases over the pattern alphabet x 3 body kinds (expression using the bound names, block with a trace, tracing call); " +
-			"outer variables named like the pattern names exist, so leaking or clobbering a binding is visible; oracle: DESIGN.md 3.17 through the reference interpreter (selected case, bindings, value, and the trace shows that no later pattern or body ran); " +
+			"every case list of <= 3 single-alternative cases is also run as ONE match site over the sequence of all subjects (forward and reversed); outer variables named like the pattern names exist, so leaking or clobbering a binding is visible; oracle: DESIGN.md 3.17 through the reference interpreter (selected case, bindings, value, and the trace shows that no later pattern or body ran); " +
 			"a state is (subject, first-case pattern, selected?); non-trivial = (subject, pattern) pairs that match",
 		Plan: func(t fw.Tier) int { return len(c19Patterns(t == fw.Thorough)) * len(c19Subjects) },
 		Bound: func(t fw.Tier) string {
@@ -187,6 +204,25 @@ func init() {
 			for a := 0; a < wide && a < 14; a++ {
 				for b := 0; b < wide && b < 14; b++ {
 					do([][]int{{first}, {a}, {b}})
+				}
+			}
+			// the same match as ONE site over the sequence of all subjects (anything remembered per match expression would show)
+			if subj == 0 {
+				stream := func(cases [][]int) {
+					for body := 0; body < 3; body++ {
+						for _, rev := range []bool{false, true} {
+							s := c19Spec{Subj: -1, Rev: rev, Cases: cases, Body: body}
+							c.Do(func() any { return s }, func() *fw.Violation { return c19Check(c, s, pats) })
+						}
+					}
+				}
+				stream([][]int{{first}})
+				for a := 0; a < 14; a++ {
+					stream([][]int{{first, a}})
+					stream([][]int{{first}, {a}})
+					for b := 0; b < 14; b++ {
+						stream([][]int{{first}, {a}, {b}})
+					}
 				}
 			}
 		},
